@@ -46,7 +46,7 @@ def nontrivial_cells(cells):
 def shard_csv(sh, part):
     from outrank.core_utils import generic_line_parser
     rng = sh.rng('csv', part)
-    reps = 1500 if sh.tier == 'quick' else 8000
+    reps = 1500 if sh.tier == 'quick' else 40000
     for t in range(reps):
         k = rng.choice([1, 2, 3, 5, 9])
         cells = [rng.choice(CELLS) if rng.random() < 0.8 else ''.join(rng.choice('ab ,"\'\t;') for _ in range(rng.randint(0, 6))) for _ in range(k)]
@@ -73,7 +73,7 @@ def shard_csv(sh, part):
 def shard_tsv(sh, part):
     from outrank.core_utils import generic_line_parser
     rng = sh.rng('tsv', part)
-    reps = 2000 if sh.tier == 'quick' else 10000
+    reps = 2000 if sh.tier == 'quick' else 60000
     for t in range(reps):
         k = rng.choice([1, 2, 3, 5, 9])
         cells = [rng.choice(TSV_CELLS) if rng.random() < 0.8 else ''.join(rng.choice('ab ,"\' ') for _ in range(rng.randint(0, 5))) for _ in range(k)]
@@ -99,7 +99,7 @@ VW_TOKS = ['ab', 'abc', 'x1', 'a', 'é1', 'ab_cd', 'AB:1.5', '12345', 'a-b', 'q,
 def shard_vw(sh, part):
     from outrank.core_utils import generic_line_parser
     rng = sh.rng('vw', part)
-    headers = 6 if sh.tier == 'quick' else 20
+    headers = 6 if sh.tier == 'quick' else 60
     for h in range(headers):
         nns = rng.choice([1, 2, 4, 8])
         ids = rng.sample(['A', 'B', 'C', 'Ab', 'aB', 'z', 'Zq', 'a1', 'x_y', 'Q', 'é', 'nsX'], nns)
